@@ -29,6 +29,10 @@ def num (b : Bytes) (pos n : Nat) : Nat := beVal (slice b pos n)
 
 def magic : Bytes := [70, 83, 51, 48]      -- b'FS30' (ZODB._compat.FILESTORAGE_MAGIC)
 def window : Nat := 8096                   -- the read size of `scan`
+/-- idealisation of the allocator: `file.read(n)` with `n ≥ 2^40` raises (MemoryError, or
+    OverflowError beyond 2^63), a smaller request succeeds (and may return fewer bytes).  Only the
+    unguarded `read(h.plen)` of `_loadBack_impl` can ask for that much. -/
+def hugeRead : Nat := 2 ^ 40
 
 /-! ### `read_txn_header` -/
 
@@ -109,7 +113,8 @@ def loadBackB (b : Bytes) : Nat → Nat → LB
     if b.length < back + 42 then .err                       -- short header
     else if num b (back + 32) 2 ≠ 0 then .err                -- non-zero version length
     else if num b (back + 34) 8 ≠ 0 then
-      .data (some (slice b (back + 42) (num b (back + 34) 8)))   -- the pickle (read may be short)
+      if hugeRead ≤ num b (back + 34) 8 then .err            -- read(n): MemoryError / OverflowError
+      else .data (some (slice b (back + 42) (num b (back + 34) 8)))   -- the pickle (may be short)
     else if b.length < back + 50 then .err                   -- u64 of a short read
     else if num b (back + 42) 8 = 0 then .data none
     else if back ≤ num b (back + 42) 8 then .err             -- does not point backwards
